@@ -13,6 +13,8 @@ NOTES = {
 }
 
 def base_of(sid):
+    if "-r4" in sid:
+        return "19b16c8"
     if "-r3" in sid:
         return "2c7e47f"
     if sid in ("C04-r2m1", "C04-r2m2", "C16-r2m1", "C16-r2m2"):
